@@ -152,6 +152,21 @@ def eq_values(I, st, a, b):
         return seq_eq(I, st, list(a), list(b))
     if isinstance(a, tuple) or isinstance(b, tuple):
         return False
+    if (isinstance(a, Ref) and st.get(a).kind == "obj") or (isinstance(b, Ref) and st.get(b).kind == "obj"):
+        # an element / value / key comparison inside a container comparison, `in`, list.index/count/remove ...: CPython
+        # (PyObject_RichCompareBool) answers True for the SAME object and otherwise calls the objects' own __eq__
+        # (obj_has -> class_lookup refuses the __eq__ that @dataclass generates: Unsupported)
+        if not (isinstance(a, Ref) and isinstance(b, Ref) and a.id == b.id):
+            if obj_has(I, st, a, "__eq__") is not None or obj_has(I, st, b, "__eq__") is not None:
+                outs = list(compare(I, st, "Eq", a, b))
+                if len(outs) != 1 or isinstance(outs[0][1], Exc) or outs[0][0] is not st:
+                    raise Unsupported("== inside a container comparison through a user-defined __eq__ that forks or raises")
+                return outs[0][1]
+    if is_view(st, a) or is_view(st, b):
+        if isinstance(a, Ref) and isinstance(b, Ref) and a.id == b.id:
+            return True
+        # keys / items views compare as sets, values views by identity - never as the list the model keeps
+        raise Unsupported("== on a dictionary view / an iterator object")
     if isinstance(a, Ref) and isinstance(b, Ref):
         ea, eb = st.get(a), st.get(b)
         if ea.kind != eb.kind:
@@ -214,6 +229,16 @@ def eq_values(I, st, a, b):
         return a == b
     except Exception:
         raise Unsupported("== on %r, %r" % (a, b))
+
+
+def is_view(st, v):
+    """v is a d.keys() / d.values() / d.items() view (values.DictViewE) or an iterator object (values.IterE): kept as a
+    list by the model, but NOT a list in Python"""
+    return isinstance(v, Ref) and st.store[v.id].__class__ in (DictViewE, IterE)
+
+
+def is_iterator(st, v):
+    return isinstance(v, Ref) and st.store[v.id].__class__ is IterE
 
 
 def seq_eq(I, st, xs, ys):
@@ -350,6 +375,13 @@ def compare(I, st, op, a, b):
         yield st, {"Lt": ra < rb, "LtE": ra <= rb and (ra != 0 or rb != 0), "Gt": ra > rb, "GtE": ra >= rb and (ra != 0 or rb != 0)}[op]
         return
     if a is None or b is None or not (is_number(a) and is_number(b)):
+        # TypeError only where CPython certainly raises it (None / number / str / tuple of different kinds, or an object
+        # without the dunder); list < list, set < set, bytes, uninterpreted values ... are outside the model
+        def plain(v):
+            return v is None or is_number(v) or isinstance(v, (str, tuple)) or (isinstance(v, Ref) and st.get(v).kind == "obj")
+
+        if not (plain(a) and plain(b)) or obj_has(I, st, b, {"Lt": "__gt__", "LtE": "__ge__", "Gt": "__lt__", "GtE": "__le__"}[op]) is not None:
+            raise Unsupported("ordering comparison %s between %s and %s" % (op, type(a).__name__, type(b).__name__))
         yield st, exc("TypeError", "'%s' not supported between %r and %r" % (op, a, b))
         return
     yield st, ops.num_compare(op, a, b)
@@ -458,6 +490,8 @@ def contains(I, st, container, item):
             raise Unsupported("in range with step")
         yield st, conj([ops.num_compare("LtE", lo, item), ops.num_compare("Lt", item, hi)])
         return
+    if is_iterator(st, container):
+        raise Unsupported("`in` on an iterator object (consumes it up to the first match)")
     if isinstance(container, Ref):
         e = st.get(container)
         if e.kind in ("list", "deque"):
@@ -539,7 +573,12 @@ def slice_cases(I, st, n, s):
         if not (is_z3(v) and z3.is_int(v)):
             raise Unsupported("slice bound %r" % (v,))
         out = []
-        conds = [(v <= -n, -n)] + [(v == k, k) for k in range(-n + 1, n)] + [(v >= n, n)]
+        if s.step is not None and s.step < 0:
+            # with a negative step a bound below -n means "before the first element" (it clamps to -1, not to 0):
+            # l[-n::-1] == [l[0]] but l[-n-1::-1] == [], l[:-n:-1] stops before l[0] but l[:-n-1:-1] includes it
+            conds = [(v <= -n - 1, -n - 1)] + [(v == k, k) for k in range(-n, n)] + [(v >= n, n)]
+        else:
+            conds = [(v <= -n, -n)] + [(v == k, k) for k in range(-n + 1, n)] + [(v >= n, n)]
         for c, val in conds:
             if I.feasible(st, c):
                 s2 = st.fork()
@@ -570,6 +609,8 @@ def slice_concrete(I, n, s):
 
 
 def getitem(I, st, obj, idx):
+    if is_view(st, obj):
+        raise Unsupported("subscript of a dictionary view / an iterator object (TypeError in Python)")
     from . import npmodel
     from .symex import FrozenList, FrozenDict, FrozenNd
 
@@ -855,6 +896,8 @@ def dict_symbolic_get(I, st, e, idx):
 
 
 def setitem(I, st, obj, idx, v):
+    if is_view(st, obj):
+        raise Unsupported("subscript of a dictionary view / an iterator object (TypeError in Python)")
     from . import npmodel
 
     if isinstance(obj, HeapSeq):
@@ -873,7 +916,12 @@ def setitem(I, st, obj, idx, v):
         if e.kind in ("list", "deque"):
             if isinstance(idx, SliceVal):
                 sl = slice_concrete(I, len(e.items), idx)
-                e.items[sl] = I.iterate(v, st)
+                new_items = I.iterate(v, st)
+                try:
+                    e.items[sl] = new_items  # python's own list slice assignment (any step, any length)
+                except ValueError as err:  # extended slice of another size / step 0
+                    yield st, exc("ValueError", str(err))
+                    return
                 yield st, None
                 return
             idx = as_arith(idx)
@@ -950,6 +998,8 @@ def setitem(I, st, obj, idx, v):
 
 
 def delitem(I, st, obj, idx):
+    if is_view(st, obj):
+        raise Unsupported("subscript of a dictionary view / an iterator object (TypeError in Python)")
     from .attrs import ObjDict as _ObjDict
 
     if isinstance(obj, _ObjDict):
@@ -985,7 +1035,11 @@ def delitem(I, st, obj, idx):
             return
         if e.kind in ("list", "deque"):
             if isinstance(idx, SliceVal):
-                del e.items[slice_concrete(I, len(e.items), idx)]
+                try:
+                    del e.items[slice_concrete(I, len(e.items), idx)]
+                except ValueError as err:  # step 0
+                    yield st, exc("ValueError", str(err))
+                    return
                 yield st, None
                 return
             if isinstance(idx, int):
@@ -1036,13 +1090,33 @@ def iterate(I, st, v):
     if isinstance(v, Ref):
         e = st.get(v)
         if e.kind in ("list", "deque"):
+            from .loops import lazy_note, lazy_check
+
+            # the result of an eagerly evaluated lazy iterator (generator expression, iter(), ...) is consumed HERE: what
+            # it was computed from must not have changed since (CPython would compute it only now)
+            lazy_check(st, st.ghost.get(("lazy_src", v.id)))
+            lazy_note(st, v, e.items)
+            if e.__class__ is IterE:
+                if e.pending is not None:
+                    raise Unsupported("an iterator whose items raise when computed is consumed step by step")
+                if e.consumed:
+                    raise Unsupported("an iterator object is consumed a second time (it is exhausted in Python)")
+                if e.free is not None:
+                    env = I.env_of(st, e.free[0])
+                    if env is None or any(n not in env or env[n] is not val for n, val in e.free[1].items()):
+                        raise Unsupported("a variable read by a stored generator expression is rebound before the generator is consumed")
+                e.consumed = True
+            return list(e.items)
+        if e.kind in ("set", "dict"):
             from .loops import lazy_note
 
-            lazy_note(st, v, e.items)
-            return list(e.items)
-        if e.kind == "set":
-            return list(e.items)
-        if e.kind == "dict":
+            lazy_note(st, v, list(e.items))  # a lazy iterator over a set / the keys of a dictionary depends on them
+            if e.kind == "set" and len(e.items) > 1:
+                # KNOWN DEVIATION, declared in the trusted base of every lemma that iterates a set: CPython delivers the
+                # elements in hash-table order (for strings different in every process), the model in insertion order.
+                # Sound only for conclusions that do not depend on the order.
+                I.trust("set-order", "A3: a set of two or more elements is iterated in INSERTION order (CPython: hash order, "
+                                     "unspecified); conclusions must not depend on the order of iteration")
             return list(e.items)
         if e.kind == "nd":
             from . import npmodel
@@ -1205,7 +1279,8 @@ def set_binop(I, st, op, ea, eb):
         r = [x for x in a if x not in b] + [x for x in b if x not in a]
     else:
         raise Unsupported("set operator " + op)
-    return st.alloc(SetE(r))
+    # the result of a binary set operator has the type of the LEFT operand (set | frozenset -> set, frozenset | set -> frozenset)
+    return st.alloc(FrozenSetE(r) if ea.frozen else SetE(r))
 
 
 from .attrs import getattr, setattr, delattr, call_builtin_class, make_builtins, make_ext_modules  # noqa: E402,F401
